@@ -144,7 +144,7 @@ func ParseField(v reflect.Value, bytes []byte, params fieldParameters) error {
 		v.Set(reflect.ValueOf(Enumerated(val)))
 		return nil
 	case NullType:
-		val := true
+		val := NULL(true)
 		v.Set(reflect.ValueOf(val))
 		return nil
 	}
